@@ -178,6 +178,8 @@ struct Terms {
     d: DD,
     rp: Vec<DD>,
     rd: Vec<DD>,
+    /// sum of the magnitudes of the terms that p and d are made of (what an f64 evaluation of either can lose)
+    objmag: f64,
 }
 
 fn terms(base: &Problem, a: &Dense, ps: &Dense, mp: &Mapped, bcap: f64) -> Terms {
@@ -193,7 +195,13 @@ fn terms(base: &Problem, a: &Dense, ps: &Dense, mp: &Mapped, bcap: f64) -> Terms
         xpx = xpx + px[j] * DD::new(mp.x[j]);
     }
     let half = DD::new(0.5);
-    Terms { p: half * xpx + dd::dot(&base.q, &mp.x), d: -dd::dot(&b, &mp.z) - half * xpx, rp, rd }
+    let mut objmag = base.q.iter().zip(&mp.x).map(|(u, v)| (u * v).abs()).sum::<f64>() + b.iter().zip(&mp.z).map(|(u, v)| (u * v).abs()).sum::<f64>();
+    for j in 0..n {
+        for k in 0..n {
+            objmag += (ps.get(j, k) * mp.x[j] * mp.x[k]).abs();
+        }
+    }
+    Terms { p: half * xpx + dd::dot(&base.q, &mp.x), d: -dd::dot(&b, &mp.z) - half * xpx, rp, rd, objmag }
 }
 
 fn bits_equal(a: &SolveResult, b: &SolveResult) -> bool {
@@ -454,7 +462,9 @@ fn w_variants(ctx: &mut Ctx) {
                 // have: objectives of two solved runs agree to within the documented gap tolerance plus what the
                 // residuals can move them (a configuration that quietly loosens its own stopping test shows here)
                 if mi.tol_gap.is_finite() {
-                    let bound_doc = mi.tol_gap * (1.0 + 1e-6) + delta_ji + 64.0 * 1.1e-16 * nn * (mag + ti.p.f().abs() + tj.p.f().abs());
+                    // (the solver tests ITS f64 evaluation of the gap, which can be off by the rounding of the terms the
+                    // two objectives are made of - far more than |p| when they cancel)
+                    let bound_doc = mi.tol_gap * (1.0 + 1e-6) + delta_ji + 64.0 * 1.1e-16 * nn * (mag + ti.objmag + tj.objmag + ti.p.f().abs() + tj.p.f().abs());
                     ctx.observe_max("objective_difference_over_documented_bound", if bound_doc > 0.0 { diff / bound_doc } else { 0.0 });
                     if !(diff <= bound_doc * (1.0 + 1e-6) + 1e-300) {
                         ctx.violation("objectives_disagree_beyond_documented_gap", "objectives_disagree_beyond_documented_gap", wl, case, json!({"base": base.to_json(), "run_i": {"tags": mi.tags, "p": ti.p.f(), "d": ti.d.f(), "status": status_name(mi.status), "documented_gap_allowance": mi.tol_gap}, "run_j": {"tags": mj.tags, "p": tj.p.f()}, "difference": diff, "bound": bound_doc}));
